@@ -133,7 +133,9 @@ impl<'a> Ev<'a> {
             env: vec![HashMap::new()],
             module: vec![],
             self_ty: None,
-            sinks: vec![],
+            // under dynamic_load + ssr every strings accessor registers its translation unit in the request's
+            // RegisterCtx: sink 0 collects those registrations (per branch, like any other sink)
+            sinks: if cfg!(feature = "dynamic_load") { vec![vec![]] } else { vec![] },
             depth: 0,
             index_uses: vec![],
             notes: vec![],
@@ -247,6 +249,9 @@ impl<'a> Ev<'a> {
     fn eval_inner(&mut self, e: &Expr) -> R<Val> {
         match e {
             Expr::Block(b) => self.eval_block(&b.block),
+            // server side of dynamic loading: futures are ready at once, `.await` is the value
+            Expr::Await(a) if cfg!(feature = "dynamic_load") => self.eval(&a.base),
+            Expr::Async(a) if cfg!(feature = "dynamic_load") => self.eval_block(&a.block),
             Expr::Paren(p) => self.eval(&p.expr),
             Expr::Group(g) => self.eval(&g.expr),
             Expr::Reference(r) => self.eval(&r.expr),
@@ -456,7 +461,7 @@ impl<'a> Ev<'a> {
     }
 
     pub fn call_fn(&mut self, info: &ImplInfo, f: &syn::ImplItemFn, recv: Option<Val>, args: Vec<Val>) -> R<Val> {
-        if f.sig.asyncness.is_some() {
+        if f.sig.asyncness.is_some() && !cfg!(feature = "dynamic_load") {
             return Err(format!("async fn {}", f.sig.ident));
         }
         let module = info.module.clone();
@@ -573,6 +578,11 @@ impl<'a> Ev<'a> {
                         }
                         return self.call_fn(info, f, None, args);
                     }
+                    if name == "register" && c.args.is_empty() && cfg!(feature = "dynamic_load") && !self.sinks.is_empty() {
+                        // <Unit as TranslationUnit>::register(): library default method, RegisterCtx::register::<Unit>()
+                        self.sinks[0].push(Term::Str(format!("\u{27ea}{}\u{27eb}", ty.last().cloned().unwrap_or_default())));
+                        return Ok(Val::Unit);
+                    }
                     if name == "default" && c.args.is_empty() {
                         if let Some(ItemKind::Enum { default: Some(d), .. }) = self.idx.items.get(&ty) {
                             // #[derive(Default)] with a #[default] variant
@@ -686,7 +696,7 @@ impl<'a> Ev<'a> {
                 }
                 other => Err(format!("index_translations on {}", short(other))),
             }
-        } else if ends_with(n, &["LitWrapper", "new"]) {
+        } else if ends_with(n, &["LitWrapper", "new"]) || ends_with(n, &["LitWrapperFut", "new_not_fut"]) {
             Ok(Val::Variant(vec!["LitWrapper".into()], args))
         } else if ends_with(n, &["Clone", "clone"]) || ends_with(n, &["InterpolationStringBuilder", "check"])
             || ends_with(n, &["ToChildren", "to_children"]) || ends_with(n, &["__private", "intern"])
@@ -858,7 +868,7 @@ impl<'a> Ev<'a> {
                     }
                 }
                 if let Some(f) = found {
-                    if f.sig.asyncness.is_some() {
+                    if f.sig.asyncness.is_some() && !cfg!(feature = "dynamic_load") {
                         return Err("async builder fn".into());
                     }
                     let block = f.block.clone();
@@ -1155,6 +1165,15 @@ impl<'a> Ev<'a> {
             }
             Val::Struct(..) => self.render_display(v),
             other => Err(format!("cannot render {}", short(other))),
+        }
+    }
+
+    /// Translation units registered so far (dynamic_load + ssr), as a term over the locale.
+    pub fn registered(&mut self) -> Term {
+        if cfg!(feature = "dynamic_load") && !self.sinks.is_empty() {
+            Term::cat(self.sinks[0].clone())
+        } else {
+            Term::Str(String::new())
         }
     }
 
